@@ -80,6 +80,11 @@ CHECKS = {
    text="27 abstract paths (line / arc / zero-extent arc at 3 positions) x slice counts x 4 APIs: chain ends exactly at the arc's ends, joins exact, neighbours untouched, path connected, zero-extent arcs vanish; arc table (radii ratio 1..100, rotations, start angles, extents 0.02 rad .. exactly one turn .. 450 degrees, both directions) x position in a path x {default, 2x, 4x, n=1, error=0.02} x {cubic, quadratic}: joints on the ellipse, deviation <= 1e-3 / 1e-2 x larger radius at both defaults, non-increasing for finer subdivision.",
    note="Trusted: TLC, ArcApprox.tla, the Newton distance-to-ellipse comparator; the deviation is sampled at 33 points per curve, not bounded analytically.",
    design="5/C19"),
+ "C15": dict(
+   technique="TLA+ ArcLen (rational total variation of collinear Beziers, Pythagorean polylines, quarter-turn circles as multiples of pi, Walk(t) by cumulative length fractions, query/edit history machine) enumerated by TLC; replayed into length()/point(); invariance laws evaluated on MC_C02's segment table",
+   text="Exhaustive over every quadratic/cubic 1-D control tuple on 0..V with rational critical points along (1,0) and (3,4) (cusps, zero length, coincident controls) x 8 maps (isometries, scalings) x reversal x error settings 1e-4/1e-6/1e-9; circles of 1..4 quarter turns; polyline words with moves walked at t = j/8 (also as Polyline shapes); every history of <= MaxOps queries and edits (point(t) must be a function of the current segments); for all segments incl. generic curves: length unchanged by rotation/reflection/translation/reversal, scaled by |s|, chord <= length <= control polygon, path length = sum.",
+   note="Trusted: TLC, ArcLen.tla, Rat.tla. NOT decided: accuracy of length() to the requested error for generic (non-collinear) Beziers and eccentric arcs - TLC has no reals; only the relational laws cover them. Known finding: collinear cubics with a cusp ignore the requested error.",
+   design="5/C15"),
 }
 NOT_BUILT = "check not built yet (planned: DESIGN.md section 5)"
 
